@@ -39,7 +39,7 @@ class C14(PropBase):
                 yield dict(paths=[list(p) for p in combo], container='tuples' if L % 2 else 'lists')
 
     def n_random(self, tier):
-        return 3000 if tier == 'quick' else 60000
+        return 3000 if tier == 'quick' else 300000
 
     def random_cases(self, rnd, n):
         for _ in range(n):
